@@ -149,6 +149,7 @@ def run(ctx) -> None:
     # "the 6D map applied to the beam": the same map whatever the element's surroundings; diagnostics leave coordinates untouched
     CP.in_segment_probe(ctx, "C02", ctx.n(36, 900))
     CP.diagnostics_probe(ctx, "C02", ctx.n(16, 400))
+    CP.retune_probe(ctx, "C02", ctx.n(18, 400))
     bad = run_maps_correspondence(ctx, "C02", ctx.n(40, 1200))
     for p, En, real, model, entry in bad:
         before = len(rep.failures)
@@ -192,11 +193,11 @@ def falsify_one(rep, p, En, real) -> None:
 
 def replay(ctx, data) -> bool:
     r = data["replay"]
-    if r.get("kind") in ("in_segment", "diagnostic"):
+    if r.get("kind") in ("in_segment", "diagnostic", "retune"):
         from common import Report
         import context_probes as CP
         rp = Report("C02")
-        (CP.in_segment_case if r["kind"] == "in_segment" else CP.diagnostics_case)(rp, "C02", r)
+        {"in_segment": CP.in_segment_case, "diagnostic": CP.diagnostics_case, "retune": CP.retune_case}[r["kind"]](rp, "C02", r)
         return bool(rp.failures)
     p, En = r["params"], r["energy"]
     real = E.real_map(E.build(p), En)
